@@ -55,10 +55,13 @@ ASSUMPTIONS = [
     "rates are total functions (the exception/NaN retry branches of the adaptive loops are modelled only "
     "through the isNan oracle of adjust_dt and are not exercised)",
     "fixed-step results are compared with exact rational arithmetic at 1e-12 of the natural scale; "
-    "adaptive runs are compared with the Float instantiation at 1e-9 (the rate function and pow are "
-    "not evaluated in the same operation order as numpy/LLVM)",
-    "global error bound: proved for adaptive Euler on real a <= 0 (exact arithmetic); for RKF45 and complex a "
-    "the local-error hypothesis is explicit in the theorem and the bound is monitored on every run",
+    "adaptive runs are compared with the Float instantiation at max(1e-9, 1e-14/tolerance) relative, not bit-exactly "
+    "(the rate function and pow are not evaluated in the same operation order as numpy/LLVM)",
+    "global error bound: proved for adaptive Euler / step doubling on real a <= 0 (exact arithmetic); for RKF45 the "
+    "literal bound is false (known finding, proved with the 5th-order remainders); for complex a with Re a <= 0 the "
+    "literal bound is false for the step-doubling estimate as well (finding, no theorem): every run is monitored, an "
+    "excess is keyed only within the explicit next-order remainders of the accepted steps",
+    "adaptive runs with complex a have no model (monitors only)",
     "scipy solver: external integrator, only end time / untouched initial state / accuracy / backend agreement",
     "post-step hooks, MPI synchronisation and stochastic terms are outside the property",
 ]
@@ -1189,7 +1192,7 @@ SYMPTOM_GLOBAL = "global-error-exceeds-steps-x-tolerance"
 SYMPTOM_GLOBAL_5TH = "global-error-exceeds-steps-x-tolerance-within-5th-order-remainder"
 SYMPTOM_GLOBAL_CPLX = "global-error-exceeds-steps-x-tolerance-complex-rate-within-third-order-remainder"
 SYMPTOM_STALE_RATE = "rate of accepted state taken at old time"
-SYMPTOM_OVERSHOOT = "final time beyond t_end by less than dt_min"
+SYMPTOM_OVERSHOOT = "final time beyond t_end by one extra step of dt_min"
 
 
 def accepted_dts(case, run, mval=None, model_agrees=False):
@@ -1321,12 +1324,12 @@ def monitor_adaptive(ctx, case, mode, run, leg="monitor", dts=None):
         over = r["t"] - te
         if r["t"] == te:
             ctx.hist("adaptive-end", "exact")
-        elif 0 < over <= DT_MIN * (1 + 1e-6) + 4e-16 * abs(te):
-            # the loop never steps by less than dt_min: a remainder below dt_min (e.g. after t + (t_end - t)
-            # was rounded to the float below t_end) is overshot
-            ctx.hist("adaptive-end", "beyond t_end by less than dt_min")
+        elif abs(over - DT_MIN) <= 1e-4 * DT_MIN + 8e-16 * abs(te):
+            # t + (t_end - t) was rounded to the float below t_end: `t < t_end` held once more and a step of
+            # dt_min (the loop never steps by less) was appended
+            ctx.hist("adaptive-end", "beyond t_end by one step of dt_min")
             fail({"call": j, "t_final": r["t"], "overshoot": over}, {"t_final": te},
-                 "adaptive stepping: final time beyond t_end by less than dt_min", SYMPTOM_OVERSHOOT)
+                 "adaptive stepping: final time beyond t_end by one extra step of dt_min", SYMPTOM_OVERSHOOT)
             break
         else:
             ctx.hist("adaptive-end", "wrong")
@@ -1626,6 +1629,11 @@ CORPUS = [
     {"kind": "adaptive", "solver": "richardson", "flavour": "quad", "cplx": False, "a": [0.0, 0.0],
      "b": [1.0, -2.0, 3.0, 1.0], "u0": [[1.0, 0.0], [-0.75, 0.0]], "dt": 0.125, "tol": 1e30, "impl": "class",
      "via": "stepper", "segments": [[0.5, 3.125]], "multistep": True, "corpus": "adaptive-multistep-quadrature/richardson"},
+    # an adaptive call that misses t_end: fl(t + fl(t_end - t)) < t_end after four steps, a fifth step of dt_min
+    # follows and the call returns 1.7000000000999997
+    {"kind": "adaptive", "solver": "richardson", "flavour": "amp", "cplx": False, "a": [-0.5, 0.0],
+     "b": [0.0, 0.0, 0.0, 0.0], "u0": [[1.0, 0.0]], "dt": 0.02, "tol": 1e30, "impl": "class", "via": "solve",
+     "segments": [[0.0, 1.7]], "corpus": "adaptive-end-beyond-t_end/1"},
     # Euler step doubling with a complex rate, Re a < 0: one accepted step (estimate |z|^2/4 = 0.062515 <= tol)
     # whose error 0.06306 exceeds 1 x tolerance
     {"kind": "adaptive", "solver": "euler", "flavour": "amp", "cplx": True, "a": [-0.015625, 1.0],
